@@ -21,6 +21,7 @@ func runC08(c *an.Ctx) string {
 	r085Memo(c)
 	r086Stale(c)
 	r087Override(c)
+	r088ViewAttribute(c)
 	return explanationC08
 }
 
@@ -377,4 +378,84 @@ func r087Override(c *an.Ctx) {
 		probs = append(probs, "buildView no longer copies the view override (AddMeta under the view key) to the projected attribute")
 	}
 	report(c, rule, f.Name, f, probs, "a view override on a view attribute is copied whenever present, under the ViewMetaKey constant")
+}
+
+// r088ViewAttribute (R08.8): the per-view overrides of a nested result type
+// (View("tiny") on an attribute inside a view) are carried by the Meta of the
+// view's own attribute, which projectRecursive receives as its `vat` parameter
+// and reads the override from. Every value passed at that position must be an
+// attribute of the view definition itself - the parameter passed on unchanged,
+// or an element found in the view's object (a range variable or a variable
+// assigned from one). A NamedAttributeExpr built on the spot has no override
+// Meta: nested values are rendered with the default view.
+func r088ViewAttribute(c *an.Ctx) {
+	const rule = "R08.8"
+	n := 0
+	for _, name := range []string{"projectSingle", "projectCollection", "projectRecursive"} {
+		f := c.Func("expr", name)
+		if f == nil {
+			continue
+		}
+		info := f.Pkg.TypesInfo
+		// variables that hold elements of an object: range values, and variables assigned only from those
+		elem := map[types.Object]bool{}
+		ast.Inspect(f.Decl.Body, func(nd ast.Node) bool {
+			if rs, ok := nd.(*ast.RangeStmt); ok && rs.Value != nil {
+				if o := an.ObjOf(info, rs.Value); o != nil {
+					elem[o] = true
+				}
+			}
+			return true
+		})
+		for changed := true; changed; {
+			changed = false
+			ast.Inspect(f.Decl.Body, func(nd ast.Node) bool {
+				as, ok := nd.(*ast.AssignStmt)
+				if !ok || len(as.Lhs) != 1 || len(as.Rhs) != 1 {
+					return true
+				}
+				lo, ro := an.ObjOf(info, as.Lhs[0]), an.ObjOf(info, as.Rhs[0])
+				if lo != nil && ro != nil && elem[ro] && !elem[lo] {
+					elem[lo] = true
+					changed = true
+				}
+				return true
+			})
+		}
+		var vatParam types.Object
+		sig := f.Obj.Type().(*types.Signature)
+		for i := 0; i < sig.Params().Len(); i++ {
+			if p := sig.Params().At(i); strings.HasSuffix(p.Type().String(), "expr.NamedAttributeExpr") {
+				vatParam = p
+			}
+		}
+		ast.Inspect(f.Decl.Body, func(nd ast.Node) bool {
+			call, ok := nd.(*ast.CallExpr)
+			if !ok || an.CalleeName(info, call) != an.P("expr")+".projectRecursive" || len(call.Args) < 2 {
+				return true
+			}
+			n++
+			arg := an.Unparen(call.Args[1])
+			o := an.ObjOf(info, arg)
+			good := o != nil && (o == vatParam || elem[o])
+			// a variable defined from a literal is not an element of the view
+			if good && o != vatParam {
+				ast.Inspect(f.Decl.Body, func(m ast.Node) bool {
+					as, ok := m.(*ast.AssignStmt)
+					if !ok || len(as.Lhs) != 1 || len(as.Rhs) != 1 || an.ObjOf(info, as.Lhs[0]) != o {
+						return true
+					}
+					if ro := an.ObjOf(info, as.Rhs[0]); ro == nil || !(elem[ro] || ro == vatParam) {
+						if id, isID := an.Unparen(as.Rhs[0]).(*ast.Ident); !isID || id.Name != "nil" {
+							good = false
+						}
+					}
+					return true
+				})
+			}
+			c.Check(good, rule, fmt.Sprintf("%s#projectRecursive(%s)", f.Name, an.Src(c.Fset, arg)), call.Pos(), "the view attribute passed down is the view definition's own", "the view attribute passed to the recursive projection is not an attribute of the view definition (the parameter itself or an element of the view's object): the per-view override it carries in its Meta is lost and the nested value is rendered with the default view")
+			return true
+		})
+	}
+	c.Floor(rule, n, 3, "recursive projection calls")
 }
